@@ -74,3 +74,19 @@ func vk(conn net.Conn) int {
 	}
 	return 2
 }
+
+// VerifStartTx runs unorderedTxs.startTx on a table holding the given pending packet
+// identifiers with the sequence counter at n. It returns the identifier assigned, the
+// counter afterwards and the error (ErrMax when the table is full).
+func VerifStartTx(pending []uint16, n uint, subscribe bool) (packetID uint16, next uint, err error) {
+	txs := unorderedTxs{n: n, perPacketID: make(map[uint16]unorderedCallback, len(pending))}
+	for _, id := range pending {
+		txs.perPacketID[id] = unorderedCallback{}
+	}
+	var filters []string
+	if subscribe {
+		filters = []string{"f"}
+	}
+	packetID, _, err = txs.startTx(filters)
+	return packetID, txs.n, err
+}
